@@ -134,6 +134,8 @@ impl MoveGen {
         for x in 0..self.moves.len() {
             self.moves[x].bitboard &= !mask;
         }
+        // an entry may have become empty: restore the "used entries first" invariant
+        self.set_iterator_mask(self.iterator_mask);
     }
 
     /// Never, ever, iterate this move
@@ -141,6 +143,8 @@ impl MoveGen {
         for x in 0..self.moves.len() {
             if self.moves[x].square == chess_move.get_source() {
                 self.moves[x].bitboard &= !BitBoard::from_square(chess_move.get_dest());
+                // the entry may have become empty: restore the "used entries first" invariant
+                self.set_iterator_mask(self.iterator_mask);
                 return true;
             }
         }
